@@ -330,7 +330,7 @@ def document(draw):
         children.insert(draw(st.integers(0, len(children))), body)
     root = E('mos', *children)
     text = B.tostring(root)
-    perm = list(draw(st.permutations(children)))
+    perm = list(draw(gen.permutation(children)))
     variants = {'orig': text, 'pretty': B.tostring(root, pretty=True),
                 'permuted': B.tostring(E('mos', *perm))}
     if perm != children:
@@ -424,4 +424,11 @@ def run(tier, seed, procs):
     cols += drive.pool_map(shard_hyp, [(per, seed * 1000 + i) for i in range(shards)], procs)
     cols += drive.pool_map(shard_subprocess, [None], 1)
     shutil.rmtree(_tmp(), ignore_errors=True)
+    if not quick:
+        # coverage-guided campaign (atheris/libFuzzer over the same strategies)
+        from vlib import fuzz
+        if fuzz.available():
+            cols += drive.pool_map(fuzz.campaign, [('c08', PROP, 40000, seed, i) for i in range(procs)], procs)
+        else:
+            cols[0].notes.append('atheris not importable: coverage-guided campaign skipped (Hypothesis only)')
     return drive.merge_all(PROP, cols)
